@@ -551,6 +551,7 @@ class SchedDriver:
         # yield points: (filename, function name, line number) -> pc label, located by statement text
         self.marks = {}
         self.traced = set()
+        self.missing = []
         funcs = {("attr", n): getattr(attr._CompoundListener, n) for (m, n) in self.MARKS if m == "attr"}
         funcs[("lang", "only_once")] = langhelpers.only_once
         for key, fn in funcs.items():
@@ -571,8 +572,8 @@ class SchedDriver:
                         self.marks[(fname, cname, start + i)] = pc
                         break
                 else:
-                    raise Watchdog("yield point %r (%s) not found in %s.%s - the harness cannot follow this code" % (
-                        text, pc, key[0], key[1]))
+                    # the statement is gone: the thread will not stop there and the replay reports the missing step
+                    self.missing.append("%s.%s: %s" % (key[0], key[1], text))
 
     # ------------------------------------------------------------------ baton
     def current(self):
@@ -580,6 +581,8 @@ class SchedDriver:
 
     def park(self, pc):
         th = self.tls.th
+        if th.abort:          # being torn down (the walk ended in a mismatch): unwind without ever blocking again
+            return
         th.pc = pc
         self.ctl_sem.release()
         th.sem.acquire()
@@ -718,7 +721,8 @@ class SchedDriver:
         t = act["t"]
         th = self.th[t]
         if th.pc != frm["pc"][t - 1] or th.pc != act["p"]:
-            return "thread %d is at %r, spec at %r" % (t, th.pc, frm["pc"][t - 1])
+            return "thread %d is at %r, spec at %r%s" % (t, th.pc, frm["pc"][t - 1],
+                                                       " (statements not found: %s)" % "; ".join(self.missing) if self.missing else "")
         if th.pc == "acq" and th.want is not None and th.want.owner:
             return "spec schedules thread %d into acquire but the lock is held by thread %d" % (t, th.want.owner)
         self._resume(t)
